@@ -1,3 +1,8 @@
 import Sx.Basic
 import Sx.Prog
 import Sx.F
+import Sx.Gen.Consts
+import Sx.Model.Driver
+import Sx.Chip
+import Sx.Exec
+import Sx.Api
